@@ -3,6 +3,7 @@ package main
 // Evaluation of contract expressions to SMT terms.
 
 import (
+	"os"
 	"fmt"
 	"sort"
 	"go/token"
@@ -118,6 +119,11 @@ func (e *Env) eval(x Expr) *Val {
 		}
 		if v := e.tr.globalIdent(x.Name); v != nil {
 			return v
+		}
+		if os.Getenv("GOVC_DEBUG") != "" {
+			for k := range e.vars {
+				fmt.Fprintln(os.Stderr, "  var in scope:", k)
+			}
 		}
 		evalFail("unknown identifier %q", x.Name)
 	case *Unary:
